@@ -575,7 +575,9 @@ def _judge_product_rule(fn, class_node):
                 "primitives.flattened_product": pprod,
                 "primitives.is_zero": is_zero, "is_zero": is_zero,
                 "pymbolic.primitives.is_zero": is_zero},
-                attrs=attrs, decide=lambda it_, n_, v: True, max_steps=50000)
+                attrs=attrs, decide=lambda it_, n_, v: True, max_steps=50000,
+                globals_={"primitives": Opaque("module primitives"),
+                          "pymbolic": Opaque("module pymbolic")})
             want = Poly()
             for i in range(n):
                 if zeros[i]:
@@ -661,7 +663,10 @@ def _linear_rules(ctx, model, dm):
     if not ok:
         # the judge: the handler interpreted on products of 0..4 factors with
         # symbolic factors f_i and derivatives d_i (each d_i generic or zero)
-        wit = _judge_product_rule(mem.node, mem.owner.node)
+        try:
+            wit = _judge_product_rule(mem.node, mem.owner.node)
+        except AnalysisError as e:
+            wit = [f"(not interpretable: {e})"]
         if not wit:
             ok = True
         else:
